@@ -7,6 +7,8 @@ K4  mbox split arithmetic on symbolic separator positions
 K5  PPTX slide order from presentation.xml + relationships (OPC target resolution)
 K6  EPUB spine items -> chapters
 K7  mailbox -> messages -> units with the live separator pattern (symbolic envelope sender / year)
+K8  PDF page loop of read_pdf on generated PDFs (blank / image-only pages)
+K9  RTF body -> explicit pages -> units of read_rtf on generated bodies (escaped characters, blank pages)
 """
 import io
 import re as _real_re
@@ -1460,6 +1462,191 @@ def _k7_parts(tier):
 
 
 # =======================================================================================
+# K8  PDF page loop: read_pdf on generated PDFs (blank / contents-less / blank-text / image-only pages)
+# =======================================================================================
+_PDF_PAGE_KINDS = ["blank (empty content stream)", "blank (no /Contents)", "text", "white-space text", "image only",
+                   "text and image"]
+
+
+def _build_pdf(pages):
+    """minimal PDF 1.4 writer (ISO 32000-1 7.5: header, body, xref table, trailer).  pages: list of
+    (text or None, has image, has /Contents); the image is a 1x1 DeviceGray XObject painted with Do"""
+    objs = []
+
+    def add(b):
+        objs.append(b)
+        return len(objs)
+    cat, pgs = add(b""), add(b"")
+    font = add(b"<< /Type /Font /Subtype /Type1 /BaseFont /Helvetica >>")
+    img = add(b"<< /Type /XObject /Subtype /Image /Width 1 /Height 1 /ColorSpace /DeviceGray /BitsPerComponent 8 "
+              b"/Length 1 >>\nstream\n\x80\nendstream")
+    kids = []
+    for text, image, has_contents in pages:
+        ops = b""
+        if text is not None:
+            ops += b"BT /F1 24 Tf 72 700 Td (" + text.encode("latin-1") + b") Tj ET"
+        if image:
+            ops += b" q 10 0 0 10 72 600 cm /Im1 Do Q"
+        res = b"<< /Font << /F1 %d 0 R >>" % font + (b" /XObject << /Im1 %d 0 R >>" % img if image else b"") + b" >>"
+        if has_contents:
+            c = add(b"<< /Length %d >>\nstream\n" % len(ops) + ops + b"\nendstream")
+            kids.append(add(b"<< /Type /Page /Parent %d 0 R /MediaBox [0 0 612 792] /Resources %s /Contents %d 0 R >>"
+                            % (pgs, res, c)))
+        else:
+            kids.append(add(b"<< /Type /Page /Parent %d 0 R /MediaBox [0 0 612 792] /Resources %s >>" % (pgs, res)))
+    objs[cat - 1] = b"<< /Type /Catalog /Pages %d 0 R >>" % pgs
+    objs[pgs - 1] = b"<< /Type /Pages /Count %d /Kids [%s] >>" % (len(kids), b" ".join(b"%d 0 R" % k for k in kids))
+    out = io.BytesIO()
+    out.write(b"%PDF-1.4\n")
+    offs = []
+    for n, b in enumerate(objs, 1):
+        offs.append(out.tell())
+        out.write(b"%d 0 obj\n" % n + b + b"\nendobj\n")
+    x = out.tell()
+    out.write(b"xref\n0 %d\n0000000000 65535 f \n" % (len(objs) + 1))
+    for o in offs:
+        out.write(b"%010d 00000 n \n" % o)
+    out.write(b"trailer\n<< /Size %d /Root %d 0 R >>\nstartxref\n%d\n%%%%EOF\n" % (len(objs) + 1, cat, x))
+    return out.getvalue()
+
+
+def k8_pdf_pages(ctx):
+    """the real read_pdf (page loop, text / image / table helpers, pypdf) on a generated n-page PDF whose
+    pages are chosen from _PDF_PAGE_KINDS; then PdfContent.iterate_units / get_full_text"""
+    import sharepoint2text
+    n = ctx.params["n"]
+    fixed = ctx.params.get("first", [])
+    kinds = [fixed[i] if i < len(fixed) else ctx.choice(f"page{i}_kind", len(_PDF_PAGE_KINDS)) for i in range(n)]
+    spec = []
+    for i, kd in enumerate(kinds):
+        text = {2: f"A{i}q", 3: " ", 5: f"A{i}q"}.get(kd)
+        spec.append((text, kd in (4, 5), kd != 1))
+    raw = _build_pdf(spec)
+    info = {"pages": [_PDF_PAGE_KINDS[k] for k in kinds]}
+    try:
+        doc = next(sharepoint2text.read_pdf(io.BytesIO(raw), "x.pdf"))
+        units = [(_num(u), u.get_text(), len(u.get_images())) for u in doc.iterate_units()]
+        full = doc.get_full_text()
+    except Exception as e:
+        doc = units = None
+        ctx.fail("read_pdf-raised", exc=type(e).__name__, msg=str(e)[:100], **info)
+    info["units"] = [list(u) for u in units]
+    # ---- oracle: one unit per page of the page tree, in order, numbered by 1-based position
+    exp = list(range(n))
+    if ctx.perturb == "expect_blank_pages_skipped":
+        exp = [i for i in exp if kinds[i] not in (0, 1)]
+    ctx.require(len(units) == len(exp), "unit-count-differs-from-page-count", expected=len(exp), **info)
+    ctx.require(doc.metadata.total_pages == n, "total-pages-differs-from-page-count", got=doc.metadata.total_pages, **info)
+    for (num, txt, nimg), i in zip(units, exp):
+        ctx.require(num == i + 1, "unit-number-is-not-the-source-position", page=i + 1, got=num, **info)
+        for j, kd in enumerate(kinds):
+            tok = f"A{j}q"
+            if j == i and kd in (2, 5):
+                ctx.require(txt.count(tok) == 1, "unit-text-lost-or-duplicated", page=i + 1, token=tok, **info)
+            else:
+                ctx.require(tok not in txt, "text-of-another-element-in-unit", page=i + 1, token=tok, **info)
+        if kinds[i] in (0, 1, 3, 4):
+            ctx.require(txt.strip() == "", "text-invented-for-a-page-without-text", page=i + 1, **info)
+        ctx.require(nimg == (1 if kinds[i] in (4, 5) else 0), "page-images-not-in-their-own-unit", page=i + 1,
+                    got=nimg, **info)
+    ref = "\n".join(u[1] for u in units).strip()
+    ctx.require(full == ref, "full-text-is-not-the-trimmed-join-of-units", got=full, expected=ref, **info)
+
+
+def _k8_parts(tier):
+    K = len(_PDF_PAGE_KINDS)
+    if tier == "quick":
+        return [{"n": 1}, {"n": 2}] + [{"n": 3, "first": [a]} for a in range(K)]
+    return [{"n": 1}, {"n": 2}, {"n": 3}] + [{"n": 4, "first": [a, b]} for a in range(K) for b in range(K)]
+
+
+# =======================================================================================
+# K9  RTF body -> explicit pages -> units (read_rtf on generated bodies)
+# =======================================================================================
+# RTF 1.9.1: lexeme -> (source, semantics).  Semantics: ("tok",) a unique token at %s; ("char", c) the
+# literal character c (special characters: \\ \{ \} are the escaped backslash / braces, \'hh a byte of
+# the document code page, \uN? a Unicode character followed by its one-character fallback);
+# ("page",) \page = required page break; ("ws",) white space of some kind (paragraph mark, tab, blank)
+_BS = chr(92)
+_RTF_PAGE_LEXEMES = [
+    ("text", "W%dq", ("tok",)),
+    ("bold-group", "{" + _BS + "b W%dq}", ("tok",)),
+    ("page", _BS + "page ", ("page",)),
+    ("par", _BS + "par ", ("ws",)),
+    ("escaped-backslash", _BS + _BS, ("char", _BS)),
+    ("escaped-open-brace", _BS + "{", ("char", "{")),
+    ("escaped-close-brace", _BS + "}", ("char", "}")),
+    ("hex", _BS + "'e9", ("char", chr(0xE9))),
+    ("unicode", _BS + "u8364?", ("char", chr(0x20AC))),
+    ("tab", _BS + "tab ", ("ws",)),
+    ("space", " ", ("ws",)),
+]
+_RTF_JUDGED_CHARS = [_BS, "{", "}", chr(0xE9), chr(0x20AC)]
+
+
+@_judged
+def k9_rtf_pages(ctx):
+    """the real read_rtf (-> _extract_body_text -> _strip_rtf_full_with_pages -> RtfContent.pages) on a
+    body of 1..L lexemes; then RtfContent.iterate_units"""
+    import sharepoint2text
+    L = ctx.params["L"]
+    n = ctx.params["n"] if "n" in ctx.params else 1 + ctx.choice("n_lexemes", L)
+    fixed = ctx.params.get("first", [])
+    src, used = [], []
+    pages = [{"toks": [], "chars": {}}]
+    for i in range(n):
+        k = fixed[i] if i < len(fixed) else ctx.choice(f"lexeme{i}", len(_RTF_PAGE_LEXEMES))
+        name, fmt, sem = _RTF_PAGE_LEXEMES[k]
+        used.append(name)
+        src.append(fmt % i if "%d" in fmt else fmt)
+        if sem[0] == "tok":
+            pages[-1]["toks"].append(f"W{i}q")
+        elif sem[0] == "char":
+            pages[-1]["chars"][sem[1]] = pages[-1]["chars"].get(sem[1], 0) + 1
+        elif sem[0] == "page":
+            pages.append({"toks": [], "chars": {}})
+    rtf = "{" + _BS + "rtf1" + _BS + "ansi" + _BS + "ansicpg1252" + _BS + "deff0 " + "".join(src) + "}"
+    info = {"rtf": rtf, "lexemes": used}
+    try:
+        doc = next(sharepoint2text.read_rtf(io.BytesIO(rtf.encode("cp1252")), "x.rtf"))
+        units = [(_num(u), u.get_text()) for u in doc.iterate_units()]
+    except Exception as e:
+        units = None
+        ctx.fail("read_rtf-raised", exc=type(e).__name__, msg=str(e)[:100], **info)
+    info["units"] = [list(u) for u in units]
+    # ---- oracle (reading of K1s / DESIGN): every page that carries text yields exactly one unit, numbered
+    # by the page's 1-based position and holding exactly that page's text; blank pages may be skipped
+    inked = [(p, pg) for p, pg in enumerate(pages, start=1) if pg["toks"] or pg["chars"]]
+    ctx.require(len(units) == len(inked), "unit-count-differs-from-non-blank-pages", expected=len(inked), **info)
+    all_toks = [t for _, pg in inked for t in pg["toks"]]
+    for (num, txt), (p, pg) in zip(units, inked):
+        for t in all_toks:
+            if t in pg["toks"]:
+                ctx.require(txt.count(t) == 1, "unit-text-lost-or-duplicated", page=p, token=t, **info)
+            else:
+                ctx.require(t not in txt, "text-of-another-page-in-unit", page=p, token=t, **info)
+        for c in _RTF_JUDGED_CHARS:
+            want = pg["chars"].get(c, 0)
+            if ctx.perturb == "expect_escaped_characters_dropped" and c in (_BS, "{", "}"):
+                want = 0
+            ctx.require(txt.count(c) == want, "page-character-lost-or-invented-in-unit", page=p, char=c,
+                        got=txt.count(c), expected=want, **info)
+    nums = [u[0] for u in units]
+    ctx.require(all(a < b for a, b in zip(nums, nums[1:])), "unit-numbers-repeat-or-decrease", **info)
+    # blank RTF pages yield no unit and are not counted (documented reading, DESIGN 7.7): the units are numbered
+    # 1..k over the pages that carry text, in source order
+    ctx.require(nums == list(range(1, len(nums) + 1)), "unit-numbers-not-consecutive-from-1", got=nums, **info)
+
+
+def _k9_parts(tier):
+    K = len(_RTF_PAGE_LEXEMES)
+    if tier == "quick":
+        return [{"L": 2}] + [{"L": 3, "n": 3, "first": [a]} for a in range(K)]
+    return [{"L": 3}] + [{"L": 4, "n": 4, "first": [a]} for a in range(K)] + \
+           [{"L": 5, "n": 5, "first": [a, b]} for a in range(K) for b in range(K)]
+
+
+# =======================================================================================
 # K5  PPTX slide order
 # =======================================================================================
 _REL_PREFIX = "http://schemas.openxmlformats.org/officeDocument/2006/relationships/"
@@ -1795,6 +1982,31 @@ KERNELS = [
                         "reference = the construction: message i is the region after separator line i without the "
                         "CR/LF tail"],
            outside=["mailboxes that are not well-formed (C16/K1b)", "MIME structure of the messages (C16)"],
+           timeout={"quick": 100, "thorough": 1100}),
+    Kernel("K8", "PDF: read_pdf yields one page object / unit per page of the page tree - blank, contents-less, "
+                 "white-space and image-only pages included - numbered by position; full text = trimmed join",
+           k8_pdf_pages, targets=lambda: [__import__("sharepoint2text.parsing.extractors.pdf.pdf_extractor",
+                                                     fromlist=["x"]).read_pdf, _dt().PdfContent.iterate_units],
+           strength="structure", parts=_k8_parts,
+           perturb=[("expect_blank_pages_skipped", {"n": 2})],
+           choices=["1..3 (thorough 4) pages", "every page from {empty content stream, no /Contents, text token, "
+                    "white-space text, image only, text and image}"],
+           assumptions=["the PDF is a minimal well-formed PDF 1.4 file written by the harness (one Type1 font, one 1x1 "
+                        "DeviceGray image XObject); reference = the construction"],
+           outside=["text extraction quality inside a page (pypdf, spacing heuristics: C02)", "encrypted PDFs (C12)"],
+           timeout={"quick": 100, "thorough": 1100}),
+    Kernel("K9", "RTF: read_rtf splits the body on \\page; every page with text is one unit numbered by its position "
+                 "and holds exactly its own tokens and literal characters (escaped \\ { }, \\'hh, \\uN)",
+           k9_rtf_pages, targets=lambda: [__import__("sharepoint2text.parsing.extractors.ms_legacy.rtf_extractor",
+                                                     fromlist=["x"])._RtfParser._strip_rtf_full_with_pages,
+                                          _dt().RtfContent.iterate_units],
+           strength="structure", parts=_k9_parts,
+           perturb=[("expect_escaped_characters_dropped", {"L": 2})],
+           choices=["1..3 (thorough 5) lexemes from {token, token in a bold group, \\page, \\par, escaped backslash, "
+                    "escaped open / close brace, \\'e9, \\u8364?, \\tab, blank}"],
+           assumptions=["reference semantics of the lexemes from RTF 1.9.1 (special characters, \\page = required page "
+                        "break); a page without text may be skipped, the others keep their 1-based position"],
+           outside=["other control words / destinations (C02/K4)", "NBSP and soft hyphen at page edges (trimmed)"],
            timeout={"quick": 100, "thorough": 1100}),
     Kernel("K6", "EPUB: every spine item whose media type is XHTML/HTML becomes a chapter with its spine position",
            k6_epub_spine,
